@@ -351,6 +351,7 @@ GROUND.append(Bounded('binding_power_table_vs_EBNF', ground_bp_table))
 # ---- bounded: source round-trip, whitespace and comment insensitivity ---------------------------------
 
 V2, V3, V31 = ('2.0', '3.0', '3.1'), ('3.0', '3.1'), ('3.1',)
+XSD_DEFAULT = {'namespaces': {'': 'http://www.w3.org/2001/XMLSchema'}}
 VALUE_ROUNDTRIP = [
     (('1.0',) + V2, "'it''s \"x\"'"), (('1.0',) + V2, "\"a'b\""), (('1.0',) + V2, "'a\nb'"), (('1.0',) + V2, "concat('x', \"'\", '\"')"), (('1.0',) + V2, "'back\\slash'"),
     (V3, "(1, 2) instance of Q{http://www.w3.org/2001/XMLSchema}integer+"), (V3, "(abs#1, abs#1) instance of function(*)+"), (V3, "(abs#1) instance of function(xs:integer) as xs:integer"),
@@ -358,6 +359,10 @@ VALUE_ROUNDTRIP = [
     (V2, "/r/attribute(k)"), (V2, "/r/attribute::k"), (V2, "1e3 instance of xs:double"), (V2, "5. instance of xs:decimal"), (V2, "0.0000001 instance of xs:decimal"), (V2, "1.50 instance of xs:decimal"),
     (V31, "let $k := 'a' return map{$k : 1}?a"), (V31, "map{'a': 1}?a"), (V31, "map{1: 'x', 2: 'y'}(2)"), (V2, "(1, 2) treat as item()+"), (V31, "() instance of array(xs:integer)?"),
     (V2, "/r instance of element(r)+"), (V3, "function($x as xs:integer+) as xs:string* { 'a' }(1)"), (V2, "-1 cast as xs:string"), (V31, "(map{}, map{}) instance of map(*)*"),
+    # unprefixed type names (the XSD namespace as default element namespace) keep their occurrence indicator
+    (V2, "(1, 2) instance of integer+", XSD_DEFAULT), (V2, "(1, 2) treat as integer+", XSD_DEFAULT), (V2, "() cast as integer?", XSD_DEFAULT),
+    (V2, "() castable as integer?", XSD_DEFAULT), (V2, "(1, 2) instance of integer*", XSD_DEFAULT), (V2, "1 instance of integer", XSD_DEFAULT),
+    (V3, "concat(?, 'a')('x')"), (V3, "let $f := concat('a', ?, ?) return $f('b', 'c')"),
     (V2, "$a instance of xs:integer"), (V2, "1 instance of xs:integer?"), (V2, "2 cast as xs:double?"), (V2, "'1' castable as xs:integer?"), (V2, "(1, 2) instance of xs:integer+"),
     (V2, "/r/a instance of element(a, xs:untyped)"), (V2, "//text() instance of text()+"), (V2, "/ instance of document-node(element(r))") , (V3, "(1, 'a') ! (. instance of xs:string)"),
     (V3, "let $f := function($a, $b) { $a || $b } return $f('x', 'y')"), (V31, "[1, 2]?*"), (V31, "(1, 2) => sum()"), (V2, "if (1) then 'a' else \"b\""), (V2, "for $x in (1, 2) return $x * 2"),
@@ -410,20 +415,21 @@ def bounded_roundtrip(tier, seed):
     import xml.etree.ElementTree as ET
     from elementpath import XPathContext
     root = ET.XML('<r k="v"><a>1</a></r>')
-    for versions, text in VALUE_ROUNDTRIP:
+    for versions, text, *opt in VALUE_ROUNDTRIP:
+        kw = opt[0] if opt else {}
         for version in versions:
             n += 1
             seen.add((version, 'value', text[:12]))
 
             def run(src):
                 try:
-                    tok = PARSERS[version]().parse(src)
+                    tok = PARSERS[version](**kw).parse(src)
                     before = tok.source
                     v = tok.evaluate(XPathContext(root, variables={'a': 1}))
                     if tok.source != before and src == text:
                         fails.append({'key': 'the source text of a parsed expression changes when the expression is evaluated', 'expr': text,
                                       'what': f'XPath {version}: `{text}` has the source `{before}` after parsing and `{tok.source}` after one evaluation'})
-                        tok = PARSERS[version]().parse(src)
+                        tok = PARSERS[version](**kw).parse(src)
                     return tok, ('value', [(type(x).__name__, str(getattr(x, 'name', x))) for x in (v if isinstance(v, list) else [v])])
                 except ElementPathError as e:
                     return None, ('error', e.code)
@@ -464,6 +470,15 @@ PROBES = [
     (('2.0', '3.0', '3.1'), "string-length('it''s')", '4'), (('2.0', '3.0', '3.1'), 'string-length("a""b")', '3'),
     (('2.0', '3.0', '3.1'), 'count (: a:b :) ((1, 2))', '2'), (('2.0', '3.0', '3.1'), 'count(: x::y :)((1, 2, 3))', '3'), (('2.0', '3.0', '3.1'), "concat (: p:q, 'z' :) ('a', 'b')", "'ab'"),
     (('2.0', '3.0', '3.1'), 'string-length (: one :) (: two :) ("ab")', '2'),
+    (('2.0', '3.0', '3.1'), 'count (: a\nb :) ((1, 2))', '2'), (('2.0', '3.0', '3.1'), "string (: x \n y :) (1)", "'1'"), (('2.0', '3.0', '3.1'), 'xs:int (: a\n :) (1)', '1'),
+    (('3.1',), "map (: a\nb :) {1: 2}(1)", '2'), (('3.1',), 'array (: a\nb :) {1, 2}(2)', '2'), (('2.0', '3.0', '3.1'), 'count(/r/attribute (: c\n :) (*))', '0'),
+    (('2.0', '3.0', '3.1'), 'attribute (: c :) = 1', 'False'), (('2.0', '3.0', '3.1'), 'attribute = 1', 'False'), (('2.0', '3.0', '3.1'), 'count(attribute (: c :) :: attribute)', '0'),
+    (('2.0', '3.0', '3.1'), 'element (: c :) = 1', 'False'), (('2.0', '3.0', '3.1'), 'count(/ (: c :) r)', '1'),
+    # a comment does not change the role of the token that follows it (placeholder, unary lookup, occurrence indicator)
+    (('3.0', '3.1'), "concat((: c :) ?, 'a')('x')", "'xa'"), (('3.0', '3.1'), "concat(?, (: c :) ?)('a', 'b')", "'ab'"), (('3.0', '3.1'), "concat(?, (: c :) (: d :) ?)('a', 'b')", "'ab'"),
+    (('3.0', '3.1'), "concat( (: c (: n :) :) ?, 'a')('x')", "'xa'"), (('3.1',), "map{'a': 1} (: c :) ? (: d :) a", '[1]'), (('3.1',), '[1, 2] (: c :) ?2', '[2]'),
+    (('2.0', '3.0', '3.1'), '1 instance of xs:integer (: c :) ?', 'True'), (('2.0', '3.0', '3.1'), '(1, 2) instance of xs:integer (: c :) +', 'True'),
+    # XPath 1.0: the union binds tighter than the unary minus (value on <r/>: number(()) is NaN, so the sign of a parse is not visible; trees are compared in operator_pair_trees_vs_EBNF)
     # arrow operator with function names shared by the fn: and array: namespaces
     (('3.1',), '(3, 1, 2) => sort() => head()', '1'), (('3.1',), '(3, 1, 2) => reverse()', '[2, 1, 3]'), (('3.1',), '(3, 1, 2) => tail() => count()', '2'),
     (('3.1',), '(1, -2) => for-each(abs#1) => sum()', '3'), (('3.1',), '(3, 1) => sort() => head()', '1'),
@@ -481,8 +496,8 @@ def ground_probes(tier, seed):
             n += 1
             try:
                 tok = PARSERS[v]().parse(expr)
+                src = tok.source            # before any evaluation (what an evaluation does to the source text is judged in source_roundtrip_and_whitespace)
                 got = repr(tok.evaluate(XPathContext(root=ET.XML('<r/>'))))
-                src = tok.source
                 try:
                     again = repr(PARSERS[v]().parse(src).evaluate(XPathContext(root=ET.XML('<r/>'))))
                 except ElementPathError as e:
